@@ -33,10 +33,13 @@ import (
 	"crypto/rand"
 	"crypto/rsa"
 	"crypto/x509"
+	"encoding/asn1"
+	"encoding/base64"
 	"encoding/json"
 	"errors"
 	"fmt"
 	"io"
+	"math/big"
 	"os"
 	"runtime/debug"
 	"sort"
@@ -44,6 +47,7 @@ import (
 	"strings"
 	"time"
 
+	"github.com/fxamacker/cbor/v2"
 	"github.com/notaryproject/notation-core-go/signature"
 	"github.com/notaryproject/notation-go"
 	"github.com/notaryproject/notation-go/signer"
@@ -192,6 +196,102 @@ func rawSign(key crypto.Signer, h crypto.Hash, msg []byte, alt bool) []byte {
 	panic("unsupported key type")
 }
 
+// derSig is an ASN.1 DER ECDSA-Sig-Value (SEQUENCE of two INTEGERs), the other common
+// encoding of signature values; a library that tries to be helpful with it meets r and
+// s of any width and sign.
+func derSig(r, s *big.Int) []byte {
+	b, err := asn1.Marshal(struct{ R, S *big.Int }{r, s})
+	if err != nil {
+		panic(err)
+	}
+	return b
+}
+
+func wideInt(bytes int) *big.Int {
+	x := new(big.Int).Lsh(big.NewInt(1), uint(8*bytes))
+	return x.Sub(x, big.NewInt(1))
+}
+
+func filled(n int, b byte) []byte { return bytes.Repeat([]byte{b}, n) }
+
+var cborDet = func() cbor.EncMode {
+	m, err := cbor.CoreDetEncOptions().EncMode()
+	if err != nil {
+		panic(err)
+	}
+	return m
+}()
+
+// withContentTypeHeader takes a good envelope and re-signs it (with key) after the content type member of the
+// protected header was changed: op = absent | empty | null | number.
+func withContentTypeHeader(format string, env []byte, key crypto.Signer, op string) []byte {
+	h := forge.HashOf(key.Public())
+	if format == forge.JWS {
+		p := forge.SplitJWS(env)
+		pj, err := base64.RawURLEncoding.DecodeString(p.Protected)
+		if err != nil {
+			panic(err)
+		}
+		var m map[string]json.RawMessage
+		if err := json.Unmarshal(pj, &m); err != nil {
+			panic(err)
+		}
+		switch op {
+		case "absent":
+			delete(m, "cty")
+		case "empty":
+			m["cty"] = json.RawMessage(`""`)
+		case "null":
+			m["cty"] = json.RawMessage(`null`)
+		case "number":
+			m["cty"] = json.RawMessage(`0`)
+		}
+		nj, err := json.Marshal(m)
+		if err != nil {
+			panic(err)
+		}
+		p.Protected = base64.RawURLEncoding.EncodeToString(nj)
+		p.Signature = base64.RawURLEncoding.EncodeToString(rawSign(key, h, []byte(p.Protected+"."+p.Payload), false))
+		return p.Bytes()
+	}
+	p := forge.SplitCOSE(env)
+	var prot []byte
+	if err := cbor.Unmarshal(p.Protected, &prot); err != nil {
+		panic(err)
+	}
+	var m map[any]cbor.RawMessage
+	if err := cbor.Unmarshal(prot, &m); err != nil {
+		panic(err)
+	}
+	const labelContentType = uint64(3)
+	if _, ok := m[labelContentType]; !ok {
+		panic("COSE protected header without content type label")
+	}
+	switch op {
+	case "absent":
+		delete(m, labelContentType)
+	case "empty":
+		m[labelContentType] = cbor.RawMessage{0x60} // ""
+	case "null":
+		m[labelContentType] = cbor.RawMessage{0xf6}
+	case "number":
+		m[labelContentType] = cbor.RawMessage{0x00} // CoAP content format 0
+	}
+	nprot, err := cborDet.Marshal(m)
+	if err != nil {
+		panic(err)
+	}
+	if p.Protected, err = cbor.Marshal(nprot); err != nil {
+		panic(err)
+	}
+	tbs, err := cbor.Marshal([]any{"Signature1", nprot, []byte{}, p.Payload})
+	if err != nil {
+		panic(err)
+	}
+	p.Signature = rawSign(key, h, tbs, false)
+	return p.Bytes()
+}
+
 func signingAlgName(pub crypto.PublicKey) fw.SignatureAlgorithm {
 	n := map[crypto.Hash]string{crypto.SHA256: "256", crypto.SHA384: "384", crypto.SHA512: "512"}[forge.HashOf(pub)]
 	if _, ok := pub.(*rsa.PublicKey); ok {
@@ -336,11 +436,12 @@ const (
 type answer struct {
 	Name     string
 	Kind     string
-	NeedsAnn bool                      // only meaningful when the request carries annotations
-	Payload  func(v reqView) []byte    // envelope path: payload to sign instead of the request's
-	Mode     string                    // every other deviation
-	Spell    func(canon string) string // raw path: describe-key spells its (true) key spec this way; everything else honest
-	Note     string                    // for the evidence
+	NeedsAnn bool                                 // only meaningful when the request carries annotations
+	Payload  func(v reqView) []byte               // envelope path: payload to sign instead of the request's
+	Mode     string                               // every other deviation
+	Spell    func(canon string) string            // raw path: describe-key spells its (true) key spec this way; everything else honest
+	Sig      func(w *world, honest []byte) []byte // raw path: the signature value answered instead of the honest one; everything else honest
+	Note     string                               // for the evidence
 }
 
 func mod(f func(v reqView, d *dparts)) func(v reqView) []byte {
@@ -460,6 +561,13 @@ func envelopeAnswers() []answer {
 		{Name: "signature-corrupted", Kind: kAdv, Mode: "corrupt-sig"},
 		{Name: "content-type-json", Kind: kAdv, Mode: "cty-json"},
 		{Name: "content-type-other-notary-version", Kind: kAdv, Mode: "cty-v2"},
+		{Name: "content-type-with-suffix", Kind: kAdv, Mode: "cty-suffix", Note: "the Notary type followed by one more character"},
+		{Name: "content-type-without-json-suffix", Kind: kAdv, Mode: "cty-prefix"},
+		// absent member vs empty value vs other JSON/CBOR type: an otherwise perfect, correctly signed envelope that declares no payload type
+		{Name: "content-type-absent", Kind: kAdv, Mode: "cty-edit:absent"},
+		{Name: "content-type-empty", Kind: kAdv, Mode: "cty-edit:empty"},
+		{Name: "content-type-null", Kind: kAdv, Mode: "cty-edit:null"},
+		{Name: "content-type-number", Kind: kAdv, Mode: "cty-edit:number"},
 		{Name: "key-not-matching-chain", Kind: kAdv, Mode: "key-mismatch", Note: "signed by another key of the same spec, chain of the plugin's key"},
 		{Name: "envelope-nil", Kind: kAdv, Mode: "env-nil"},
 		{Name: "envelope-empty", Kind: kAdv, Mode: "env-empty"},
@@ -540,6 +648,23 @@ func rawAnswers() []answer {
 		{Name: "signature-by-other-key", Kind: kAdv, Mode: "sig-other-key", Note: "another key of the same spec, chain of the plugin's key"},
 		{Name: "signature-other-scheme", Kind: kAdv, Mode: "sig-alt", Note: "PKCS#1 v1.5 instead of PSS / ASN.1 DER instead of r||s"},
 		{Name: "signature-over-other-bytes", Kind: kAdv, Mode: "sig-other-msg"},
+		// signature VALUES of other lengths / other well-formed encodings with out-of-range integers (key id, key spec and
+		// chain honest): whatever the library does with the bytes, it must end in an error, not in a panic
+		{Name: "signature-one-byte-longer", Kind: kAdv, Mode: "sig-bytes", Sig: func(w *world, h []byte) []byte { return append(append([]byte(nil), h...), 0) }},
+		{Name: "signature-leading-zero-byte", Kind: kAdv, Mode: "sig-bytes", Sig: func(w *world, h []byte) []byte { return append([]byte{0}, h...) }},
+		{Name: "signature-single-byte", Kind: kAdv, Mode: "sig-bytes", Sig: func(w *world, h []byte) []byte { return []byte{1} }},
+		{Name: "signature-twice-as-long", Kind: kAdv, Mode: "sig-bytes", Sig: func(w *world, h []byte) []byte { return append(append([]byte(nil), h...), h...) }},
+		{Name: "signature-very-long", Kind: kAdv, Mode: "sig-bytes", Sig: func(w *world, h []byte) []byte { return filled(1<<16, 0xab) }},
+		{Name: "signature-all-ff", Kind: kAdv, Mode: "sig-bytes", Sig: func(w *world, h []byte) []byte { return filled(len(h), 0xff) }, Note: "integers above the modulus / group order"},
+		{Name: "signature-all-zero", Kind: kAdv, Mode: "sig-bytes", Sig: func(w *world, h []byte) []byte { return filled(len(h), 0) }},
+		{Name: "signature-der-wide-integers", Kind: kAdv, Mode: "sig-bytes", Sig: func(w *world, h []byte) []byte { return derSig(wideInt(len(h)), wideInt(len(h))) }, Note: "DER SEQUENCE of two INTEGERs wider than the key"},
+		{Name: "signature-der-one-wide-integer", Kind: kAdv, Mode: "sig-bytes", Sig: func(w *world, h []byte) []byte { return derSig(big.NewInt(1), wideInt(len(h)/2+1)) }, Note: "s one byte wider than the curve"},
+		{Name: "signature-der-zero-integers", Kind: kAdv, Mode: "sig-bytes", Sig: func(w *world, h []byte) []byte { return derSig(big.NewInt(0), big.NewInt(0)) }},
+		{Name: "signature-der-negative-integers", Kind: kAdv, Mode: "sig-bytes", Sig: func(w *world, h []byte) []byte { return derSig(big.NewInt(-1), new(big.Int).Neg(wideInt(len(h)))) }},
+		{Name: "signature-der-trailing-bytes", Kind: kAdv, Mode: "sig-bytes", Sig: func(w *world, h []byte) []byte { return append(derSig(big.NewInt(1), big.NewInt(1)), 0, 0) }},
+		{Name: "signature-der-of-the-honest-halves", Kind: kRecorded, Mode: "sig-bytes", Sig: func(w *world, h []byte) []byte {
+			return derSig(new(big.Int).SetBytes(h[:len(h)/2]), new(big.Int).SetBytes(h[len(h)/2:]))
+		}, Note: "the honest value in the other encoding: a library may convert it (then the signature verifies) or reject it"},
 		{Name: "chain-nil", Kind: kAdv, Mode: "chain-nil"},
 		{Name: "chain-empty-slice", Kind: kAdv, Mode: "chain-empty"},
 		{Name: "chain-empty-element", Kind: kAdv, Mode: "chain-empty-elem"},
@@ -738,11 +863,14 @@ func (p *plug) GenerateSignature(_ context.Context, req *fw.GenerateSignatureReq
 		resp.SigningAlgorithm = "ED25519"
 	case "alg-empty":
 		resp.SigningAlgorithm = ""
-	case "sig-corrupt", "sig-empty", "sig-truncated":
+	case "sig-corrupt", "sig-empty", "sig-truncated", "sig-bytes":
 	default:
 		dev = false
 	}
 	sig := rawSign(key, h, msg, alt)
+	if p.a.Mode == "sig-bytes" {
+		sig = p.a.Sig(w, sig)
+	}
 	switch p.a.Mode {
 	case "sig-corrupt":
 		sig[len(sig)/2] ^= 1
@@ -813,6 +941,11 @@ func (p *plug) GenerateEnvelope(_ context.Context, req *fw.GenerateEnvelopeReque
 		spec.ContentType = "application/json"
 	case "cty-v2":
 		spec.ContentType = "application/vnd.cncf.notary.payload.v2+json"
+	case "cty-suffix":
+		spec.ContentType = forge.PayloadType + "2"
+	case "cty-prefix":
+		spec.ContentType = strings.TrimSuffix(forge.PayloadType, "+json")
+	case "cty-edit:absent", "cty-edit:empty", "cty-edit:null", "cty-edit:number":
 	case "key-mismatch":
 		spec.Key = w.other
 	case "env-nil", "env-empty", "env-garbage", "env-truncated":
@@ -829,6 +962,9 @@ func (p *plug) GenerateEnvelope(_ context.Context, req *fw.GenerateEnvelopeReque
 		}
 	} else {
 		env = forge.Build(spec)
+	}
+	if strings.HasPrefix(a.Mode, "cty-edit:") {
+		env = withContentTypeHeader(format, env, w.key, strings.TrimPrefix(a.Mode, "cty-edit:"))
 	}
 	switch a.Mode {
 	case "env-nil":
